@@ -216,7 +216,9 @@ DecPost(bs) ==
 \* then the tag strings; all offsets are relative to the storage area
 NameHdrSize(v) == 6 + 12 * Len(v.recs) + (IF v.tags # <<>> THEN 2 + 4 * Len(v.tags) ELSE 0)
 NameStrs(v) == MapS(v.recs, LAMBDA r : r.s) \o v.tags
-NameOff(v, i) == SumSeq([j \in 1 .. (i - 1) |-> Len(NameStrs(v)[j])])
+RECURSIVE Pref(_, _, _)
+Pref(q, i, acc) == IF i > Len(q) THEN <<>> ELSE <<acc>> \o Pref(q, i + 1, acc + q[i])
+NameOffs(v) == Pref(MapS(NameStrs(v), Len), 1, 0)          \* offset of every string in the storage area
 NameInFormat(v) ==
   /\ \A i \in 1 .. Len(v.recs) : LET r == v.recs[i] IN
         IsU16(r.p) /\ IsU16(r.e) /\ IsU16(r.l) /\ IsU16(r.n) /\ IsBytes(r.s)
@@ -224,14 +226,15 @@ NameInFormat(v) ==
 NameRefuse(v) ==
   \/ Len(v.recs) > 65535 \/ Len(v.tags) > 65535
   \/ NameHdrSize(v) > 65535
-  \/ \E i \in 1 .. Len(NameStrs(v)) : Len(NameStrs(v)[i]) > 65535 \/ NameOff(v, i) > 65535
+  \/ LET strs == NameStrs(v)  offs == NameOffs(v) IN
+     \E i \in 1 .. Len(strs) : Len(strs[i]) > 65535 \/ offs[i] > 65535
 EncName(v) ==
-  LET strs == NameStrs(v)  nr == Len(v.recs) IN
+  LET strs == NameStrs(v)  nr == Len(v.recs)  offs == NameOffs(v) IN
   U16(IF v.tags = <<>> THEN 0 ELSE 1) \o U16(nr) \o U16(NameHdrSize(v))
   \o Cat([i \in 1 .. nr |-> LET r == v.recs[i] IN
-            U16(r.p) \o U16(r.e) \o U16(r.l) \o U16(r.n) \o U16(Len(r.s)) \o U16(NameOff(v, i))])
+            U16(r.p) \o U16(r.e) \o U16(r.l) \o U16(r.n) \o U16(Len(r.s)) \o U16(offs[i])])
   \o (IF v.tags = <<>> THEN <<>>
-      ELSE U16(Len(v.tags)) \o Cat([i \in 1 .. Len(v.tags) |-> U16(Len(v.tags[i])) \o U16(NameOff(v, nr + i))]))
+      ELSE U16(Len(v.tags)) \o Cat([i \in 1 .. Len(v.tags) |-> U16(Len(v.tags[i])) \o U16(offs[nr + i])]))
   \o Cat(strs)
 DecName(bs) ==
   LET fmt == RU16(bs, 0)  nr == RU16(bs, 2)  so == RU16(bs, 4)
@@ -370,7 +373,7 @@ ArgSize(f) == IF HasBit(f, 1) THEN 2 ELSE 1
 CompSize(f) == 4 + 2 * ArgSize(f) + 2 * CompScaleLen(f)
 RECURSIVE DecComps(_, _)
 DecComps(bs, at) ==
-  LET f == RU16(bs, at) % 8192 - (IF HasBit(RU16(bs, at), 16) THEN 16 ELSE 0)   \* undefined bits dropped
+  LET f == (RU16(bs, at) % 8192) - (IF HasBit(RU16(bs, at), 16) THEN 16 ELSE 0)   \* undefined bits dropped
       fr == RU16(bs, at)
       c == [flags |-> f, gid |-> RU16(bs, at + 2), a1 |-> DecArg(fr, bs, at + 4),
             a2 |-> DecArg(fr, bs, at + 4 + ArgSize(fr)),
